@@ -8,7 +8,7 @@
    the empirical collision integrals (positive-definiteness of the Galerkin matrices is not proved). *)
 From Coq Require Import Reals List.
 Import ListNotations.
-From MPC Require Import Num Species RInst StatMech RVec Radiation GenSpecies GenRadiation GenTransport Transport C12_split C05_blocks C12_split_q C14_proofs C14_quadratic C14_quadratic_k.
+From MPC Require Import Num Species RInst StatMech RVec Radiation GenSpecies GenRadiation GenTransport Transport C12_split C05_blocks C12_split_q C14_proofs C14_quadratic C14_quadratic_k GenMixture C09_proofs.
 Open Scope R_scope.
 
 Theorem C14_emission_positive : forall (U : Units R) (T : R) (heavy : list (R * species R)),
@@ -113,3 +113,10 @@ Proof.
   - apply kdash_is_quadratic_form; assumption.
   - apply (kdash_positive_iff_form_positive U T masses nd nb Q Hm HkT Hk x Hsys).
 Qed.
+
+(* heat capacity (regenerated from LTE.calculate_heat_capacity, enthalpy oracle H): strictly positive exactly when the enthalpy at
+   T(1+d) exceeds the enthalpy at T(1-d); finite whenever both enthalpies are (a quotient by 2 d T <> 0) *)
+Theorem C14_heat_capacity_positive_iff : forall (H : R -> R) (T d : R), 0 < T -> 0 < d ->
+  (0 < heat_capacity RNum H T d <-> H (T * (1 - d)) < H (T * (1 + d))).
+Proof. exact heat_capacity_pos_iff. Qed.
+Print Assumptions C14_heat_capacity_positive_iff.
